@@ -344,7 +344,7 @@ fn raw_doc(cur: &mut Cur) -> String {
 }
 
 /// Decode arbitrary bytes into a valid case. Layout: 8 header bytes (flags, tokenizer, n-gram range, df mode and
-/// picks, cap, method, alphabet), one count byte, then documents; bit 7 of the first byte selects *raw* documents
+/// picks, cap, method, alphabet), one count byte, then stop-word / fixed-vocabulary picks, then documents; bit 7 of the first byte selects *raw* documents
 /// (lossy UTF-8 of the input bytes) instead of alphabet recipes. Returns `None` only for inputs shorter than 4 bytes.
 pub fn case_from_bytes(data: &[u8]) -> Option<Case> {
     if data.len() < 4 {
@@ -375,6 +375,14 @@ pub fn case_from_bytes(data: &[u8]) -> Option<Case> {
     let n_stop = (counts as usize >> 5) & 0x03;
     let want_fixed = counts & 0x80 != 0;
     let raw = flags & 0x80 != 0;
+    // picks come before the documents so that short inputs do not starve them
+    let stop: Vec<u16> = (0..n_stop).map(|_| cur.u16()).collect();
+    let fixed: Vec<u16> = if want_fixed {
+        let k = cur.u8() as usize % 7;
+        (0..k).map(|_| cur.u16()).collect()
+    } else {
+        vec![]
+    };
     let mut raw_train = Vec::new();
     let mut raw_unseen = Vec::new();
     if raw {
@@ -393,13 +401,6 @@ pub fn case_from_bytes(data: &[u8]) -> Option<Case> {
             r.unseen.push(doc_from(&mut cur, 10));
         }
     }
-    let stop: Vec<u16> = (0..n_stop).map(|_| cur.u16()).collect();
-    let fixed: Vec<u16> = if want_fixed {
-        let k = cur.u8() as usize % 7;
-        (0..k).map(|_| cur.u16()).collect()
-    } else {
-        vec![]
-    };
     if !raw {
         r.stop = if n_stop > 0 { Some(stop) } else { None };
         r.fixed = if want_fixed { Some(fixed) } else { None };
